@@ -167,10 +167,15 @@ def main(argv):
             builtins.open = f_open
 
         # ------------------------------------------------------------ the library's own construction
-        import simple_ddl_parser
+        try:
+            import simple_ddl_parser
+            from simple_ddl_parser import DDLParser
+        except BaseException as e:
+            # the package cannot even be imported under this cache state
+            res["construct"] = "raised %s at import: %s" % (type(e).__name__, str(e)[:200])
+            raise RuntimeError("construction failed: " + res["construct"])
         if not os.path.abspath(simple_ddl_parser.__file__).startswith(os.path.abspath(pkg_root)):
             raise RuntimeError("not the scratch copy: %s" % simple_ddl_parser.__file__)
-        from simple_ddl_parser import DDLParser
 
         with fs.Watch() as w:
             try:
@@ -200,12 +205,23 @@ def main(argv):
             for nm, val in zip(names, a):
                 if nm in ("method", "module", "start", "check_recursion"):
                     kw.setdefault(nm, val)
-        fresh = o_yacc(**kw)
+        try:
+            fresh = o_yacc(**kw)
+        except BaseException as e:
+            # the declared grammar cannot be generated at all (the cached table file hides that): no reference tables;
+            # the cache-fault states will show it as a construction failure
+            fresh = None
+            res["fresh_error"] = "%s: %s" % (type(e).__name__, str(e)[:200])
         fresh_sig = [s for ph, s in sigs if ph == "fresh"]
         res["fresh_generated"] = sum(1 for e in ev if e["kind"] == "generate" and e["phase"] == "fresh")
         res["signature_digest"] = digest(fresh_sig[-1]) if fresh_sig else None
         res["library_signature_equals_fresh"] = bool(lib_sig and fresh_sig and lib_sig[-1] == fresh_sig[-1])
-        f_action, f_goto, f_prods = fresh.action, fresh.goto, prods_of(fresh.productions)
+        if fresh is None:
+            live = None
+            res["live_unobservable"] = "no reference tables: " + res["fresh_error"]
+            f_action, f_goto, f_prods = {}, {}, []
+        else:
+            f_action, f_goto, f_prods = fresh.action, fresh.goto, prods_of(fresh.productions)
         res["fresh_sizes"] = {"states": len(f_action), "action_entries": sum(len(v) for v in f_action.values()),
                               "goto_entries": sum(len(v) for v in f_goto.values()), "productions": len(f_prods)}
         # 1. live tables vs fresh
@@ -221,7 +237,9 @@ def main(argv):
         cur_sig = fresh_sig[-1] if fresh_sig else None
         after = load_table_file(tf)
         for label, tab in (("file_before", before), ("file_after", after)):
-            if tab is None:
+            if fresh is None:
+                res[label] = {"state": "not compared (no reference tables)"}
+            elif tab is None:
                 res[label] = {"state": "missing"}
             elif "error" in tab:
                 res[label] = {"state": "unreadable", "error": tab["error"]}
@@ -250,7 +268,7 @@ def main(argv):
         phase[0] = "second_object"
         p2 = DDLParser("CREATE TABLE t2 (a int);")
         l2 = getattr(p2, "yacc", None)
-        if l2 is not None and hasattr(l2, "action"):
+        if fresh is not None and l2 is not None and hasattr(l2, "action"):
             d, n = diff_tables(l2.action, l2.goto, prods_of(l2.productions), f_action, f_goto, f_prods)
             res["second_object_vs_fresh"] = {"diffs": d, "entries_compared": n}
         import collections
